@@ -56,12 +56,14 @@ func (k nodeKinds) kindsUnionAt(b *ssa.BasicBlock, same func(ssa.Value) bool) ma
 }
 
 func (k nodeKinds) kindsUnionAtD(b *ssa.BasicBlock, same func(ssa.Value) bool, depth int) map[int64]bool {
-	if m := k.kindsPossibleAt(b, same); m != nil && len(m) < len(k.byValue)-1 {
-		return m
-	}
+	dom := k.kindsPossibleAt(b, same)
 	if len(b.Preds) == 0 || depth > 4 {
-		return k.kindsPossibleAt(b, same)
+		return dom
 	}
+	if dom != nil && len(dom) == 1 {
+		return dom
+	}
+	// refine by what each incoming edge knows (a body shared by several `case` values or an a || b || c test)
 	union := map[int64]bool{}
 	for _, p := range b.Preds {
 		for kk, s := range p.Succs {
@@ -75,14 +77,23 @@ func (k nodeKinds) kindsUnionAtD(b *ssa.BasicBlock, same func(ssa.Value) bool, d
 				}
 			}
 			if m == nil {
-				return k.kindsPossibleAt(b, same)
+				return dom
 			}
 			for v := range m {
 				union[v] = true
 			}
 		}
 	}
-	return union
+	if dom == nil {
+		return union
+	}
+	out := map[int64]bool{}
+	for v := range union {
+		if dom[v] {
+			out[v] = true
+		}
+	}
+	return out
 }
 
 func kindSetNames(k nodeKinds, m map[int64]bool) string {
@@ -418,13 +429,10 @@ func ruleStackRec(w *World, r *Report) {
 	}
 }
 
-// isEndIfPredicate: fn(e, idx) returns kind(e.nodes[idx]) == cond && e.nodes[idx].value == "fi".
+// isEndIfPredicate: fn(e, idx) answers true exactly when kind(e.nodes[idx]) == cond && e.nodes[idx].value == "fi",
+// written as one expression or with early returns.
 func isEndIfPredicate(k nodeKinds, fn *ssa.Function) bool {
 	if fn == nil || len(fn.Params) != 2 {
-		return false
-	}
-	rets := allReturns(fn)
-	if len(rets) != 1 || len(rets[0].Results) != 1 {
 		return false
 	}
 	isN := func(n ssa.Value) bool {
@@ -441,8 +449,45 @@ func isEndIfPredicate(k nodeKinds, fn *ssa.Function) bool {
 		return ""
 	}
 	tc := &termCtx{leaf: leaf}
-	t := tc.term(rets[0].Results[0])
-	return t == "(K && V)" || t == "(V && K)"
+	var disj []string
+	for _, ret := range allReturns(fn) {
+		if len(ret.Results) != 1 {
+			return false
+		}
+		v := ret.Results[0]
+		if b, ok := constBool(v); ok && !b {
+			continue
+		}
+		conj := map[string]bool{}
+		for _, f := range factsAtLocal(ret.Block()) {
+			t := tc.term(f.Cond)
+			if t != "K" && t != "V" {
+				return false
+			}
+			if !f.Truth {
+				return false // a true answer on the negative side of a test is another predicate
+			}
+			conj[t] = true
+		}
+		if b, ok := constBool(v); !ok || !b {
+			t := tc.term(v)
+			parts, okp := splitTop(t, "&&")
+			if !okp {
+				parts = []string{t}
+			}
+			for _, p := range parts {
+				if p != "K" && p != "V" {
+					return false
+				}
+				conj[p] = true
+			}
+		}
+		if !(conj["K"] && conj["V"]) {
+			return false
+		}
+		disj = append(disj, "K&&V")
+	}
+	return len(disj) >= 1
 }
 
 // ---- R-KWTYPE -------------------------------------------------------------------------
@@ -1062,9 +1107,28 @@ func ruleFastLayout(w *World, r *Report) {
 	// isLastChild
 	if sc := w.MustFn(r, rule, "calAndSetShortCircuit"); sc != nil {
 		var lc *ssa.Function
-		for _, an := range sc.AnonFuncs {
-			if len(an.Params) == 2 && an.Signature.Results().Len() == 1 {
-				lc = an
+		callsParent := func(f *ssa.Function) bool {
+			found := false
+			EachInstr(f, func(in ssa.Instruction) {
+				if c, ok := in.(*ssa.Call); ok && c.Call.StaticCallee() != nil && c.Call.StaticCallee().Name() == "parentNode" && len(f.Params) == 2 && c.Call.Args[1] == ssa.Value(f.Params[1]) {
+					found = true
+				}
+			})
+			return found
+		}
+		cands := append([]*ssa.Function{}, sc.AnonFuncs...)
+		EachInstr(sc, func(in ssa.Instruction) {
+			if c, ok := in.(*ssa.Call); ok {
+				if h := c.Call.StaticCallee(); h != nil && w.funcSet[h] {
+					cands = append(cands, h)
+				}
+			}
+		})
+		for _, an := range cands {
+			if len(an.Params) == 2 && an.Signature.Results().Len() == 1 && an.Name() != "parentNode" && callsParent(an) {
+				if bt, ok := an.Signature.Results().At(0).Type().Underlying().(*types.Basic); ok && bt.Kind() == types.Bool {
+					lc = an
+				}
 			}
 		}
 		if lc == nil {
@@ -1094,6 +1158,33 @@ func ruleFastLayout(w *World, r *Report) {
 			if other == nil {
 				r.Undecided(rule, w.InstrPos(ret), w.Name(lc), "return "+describe(ret.Results[0]), "not a comparison of parentNode(e, idx)#1")
 				continue
+			}
+			// idx + offset with the offset chosen first (offset = 1; if fast { offset = 3 })
+			if bo2, okb := other.(*ssa.BinOp); okb && bo2.Op == token.ADD {
+				var offPhi *ssa.Phi
+				if bo2.X == ssa.Value(idx) {
+					offPhi, _ = bo2.Y.(*ssa.Phi)
+				} else if bo2.Y == ssa.Value(idx) {
+					offPhi, _ = bo2.X.(*ssa.Phi)
+				}
+				if offPhi != nil {
+					allOK := len(offPhi.Edges) >= 2
+					desc := ""
+					for i2, e2 := range offPhi.Edges {
+						c, okc := constInt(e2)
+						pred := offPhi.Block().Preds[i2]
+						kinds := k.kindsFromFacts(append(factsAt(pred), factsAtEdgeTo(pred, offPhi.Block())...), isN)
+						isFast := kinds != nil && len(kinds) == 1 && kinds[k.fastOperator]
+						notFast := kinds != nil && !kinds[k.fastOperator]
+						desc += fmt.Sprintf(" [fast=%v: idx+%d]", isFast, c)
+						if !okc || !(isFast && c == 3 || notFast && c == 1) {
+							allOK = false
+						}
+					}
+					n += 2
+					r.Check(allOK, rule, w.InstrPos(ret), w.Name(lc), "last child iff parent index == idx + offset,"+desc, "idx+3 for a fast operator (it is followed by its two operands), idx+1 otherwise", "the last-child test looks for the parent at the wrong distance")
+					continue
+				}
 			}
 			lf, okl := linearise(other, func(x ssa.Value) string {
 				if x == ssa.Value(idx) {
